@@ -133,6 +133,9 @@ AL(cells, lprops) == [name |-> S_LIB, unit |-> <<141, 237, 181, 160, 247, 198, 1
 One(field, e) == [Empty(S_TOP) EXCEPT ![field] = <<e>>]
 Lib1(field, e) == AL(<<One(field, e), Sub, Leaf>>, PR0)
 Circle(k) == [Empty(S_TOP) EXCEPT !.polys = <<PolyE(4, 4, <<>>, RepV(k), PropsV(k)) @@ [ellipse |-> [c |-> <<401 + 4 * k, -83>>, r |-> 4 * (20 + k), tol |-> 1]]>>]
+\* a circular segment (the vertices of the same polygonal circle between 0 and 270 degrees, closed by a
+\* chord): every vertex lies on the circle, yet it is no circle and must come back vertex by vertex
+CircleSeg(k) == [Empty(S_TOP) EXCEPT !.polys = <<PolyE(4, 4, <<>>, NoRep, PR0) @@ [ellipse |-> [c |-> <<401 + 4 * k, -83>>, r |-> 4 * (20 + k), tol |-> 1, seg |-> <<0, 270 - 90 * k>>]]>>]
 Mixed(k) == [name |-> S_TOP, cprops |-> PropsV(k + 1),
              polys |-> <<PolyE(2, 5, Q4(<< <<0, 0>>, <<25, 0>>, <<25, 40>>, <<0, 40>> >>, 1, 1, 1), RepV(k), PR1),
                          PolyE(1, 0, TriQ, NoRep, PR0), PolyE(1, 0, CTrapQ(k % 26, 30, 12, 0, 0, 0, 0), NoRep, PR2)>>,
@@ -188,7 +191,7 @@ Singles(k) == {Lib1("polys", e) : e \in CTrapPolys(k) \cup TrapPolys(k) \cup Rec
 \* (thorough: 7 of the 14 palette rotations, chosen by the seed; every rotation is reachable by varying it)
 Libs == (IF Depth = "thorough" THEN UNION {Singles((Seed + 2 * k) % 14) : k \in 0..6} \cup {MixedLib(k) : k \in 0..25}
          ELSE Singles(Seed % 14) \cup {MixedLib(k) : k \in {Seed % 26, (Seed + 9) % 26, (Seed + 17) % 26}})
-        \cup NearLibs
+        \cup NearLibs \cup {AL(<<CircleSeg(q), Sub, Leaf>>, PR0) : q \in 0..1}
 \* every library with detection on (shape records) and once with its rotating option set;
 \* the mixed library sweeps all 256 flag sets x levels x tolerances over the run
 Sweep == IF Depth = "thorough"
